@@ -28,6 +28,8 @@ CONFIGS = {
     "dbg":   dict(ASSERT=1, FILL=1, FENCE=8, LEAK=1, PTR=1, DOUBLE=1, TMODE=2),
     "dbg16": dict(ASSERT=1, FILL=1, FENCE=16, LEAK=1, PTR=1, DOUBLE=1, TMODE=2),
     "tm1":   dict(ASSERT=0, FILL=1, FENCE=0, LEAK=1, PTR=1, DOUBLE=0, TMODE=1),
+    # a mixed configuration: the fence macro is set but fill is off (so the effective fence size is 0), checks on
+    "rf8":   dict(ASSERT=0, FILL=0, FENCE=8, LEAK=1, PTR=1, DOUBLE=0, TMODE=2),
 }
 
 WRAPS = ["malloc", "free", "mmap", "munmap", "mprotect", "madvise", "_ZnwmRKSt9nothrow_t", "_ZdlPv",
